@@ -178,6 +178,18 @@ func (ex *Exec) writeEvidence(cfg *PropConfig, tier string, seed int, reps []*Fu
 				"hypotheses": fmt.Sprint(len(o.Hyps)), "solver": o.Solver, "seconds": fmt.Sprintf("%.2f", o.Seconds), "pos": o.Pos})
 		}
 	}
+	if len(samples) == 0 { // every obligation was decided while it was generated (typestate / folded goal): show those
+		for _, o := range ex.obls {
+			if o.Status == "unsat" && o.Kind != "cover" && !seenKind[o.Kind] && len(samples) < 6 {
+				seenKind[o.Kind] = true
+				samples = append(samples, map[string]string{"obligation": o.Name, "kind": o.Kind, "clause": o.Clause, "goal_smt": truncate(o.Goal.S, 600),
+					"hypotheses": fmt.Sprint(len(o.Hyps)), "solver": o.Solver, "pos": o.Pos})
+			}
+		}
+	}
+	if samples == nil {
+		samples = []map[string]string{}
+	}
 	var trusted []string
 	trusted = append(trusted, "govc (this VC generator: contract parser, symbolic executor over go/ssa, SMT printer) and golang.org/x/tools go/ssa v0.29.0 lowering of /repo's working tree",
 		"SMT solvers z3 4.8.12, z3 5.1.0, cvc5 1.0.3 (an obligation counts as discharged on unsat from any one)",
@@ -228,9 +240,13 @@ func (ex *Exec) writeEvidence(cfg *PropConfig, tier string, seed int, reps []*Fu
 		"property_id": ex.prop, "tier": tier, "seed": seed, "level": cfg.Level, "coverage": cov, "assumptions": assumptions,
 		"wall_s": round2(wall), "violations": violations,
 	}
-	os.MkdirAll(filepath.Join(verifDir, "evidence"), 0o755)
+	dir := filepath.Join(verifDir, "evidence")
+	if os.Getenv("GOVC_REPO") != "" {
+		dir = filepath.Join(verifDir, "out", "scratch-evidence") // a run on a scratch copy (selftest) never describes /repo
+	}
+	os.MkdirAll(dir, 0o755)
 	data, _ := json.MarshalIndent(ev, "", " ")
-	os.WriteFile(filepath.Join(verifDir, "evidence", ex.prop+".json"), data, 0o644)
+	os.WriteFile(filepath.Join(dir, ex.prop+".json"), data, 0o644)
 }
 
 func round2(f float64) float64 { return float64(int(f*100+0.5)) / 100 }
